@@ -118,7 +118,8 @@ EndVerdict(cfg, st, en, k) ==
      ELSE IF en.files # 0 THEN Fail("no-files-after-finalize", k)
      ELSE "ok"
   ELSE IF en.out = "circ" THEN
-     IF en.stage # "run" THEN Fail("cycle-in-connect", k)
+     \* C04 allows the report from connect() as well as from run(); before the run only the zone can be judged
+     IF en.stage # "run" THEN (IF cfg.zone \in {"dag", "resolved"} THEN Fail("false-cycle-zone", k) ELSE "ok")
      ELSE IF ~CycleReachable(cfg, st) THEN Fail("false-cycle", k)
      ELSE IF cfg.zone \in {"dag", "resolved"} THEN Fail("false-cycle-zone", k)
      ELSE "ok"
@@ -142,7 +143,8 @@ Step ==
   /\ UNCHANGED tid
   /\ IF verdict # "ok" THEN UNCHANGED <<s, verdict>>
      ELSE IF i = 0 THEN
-        /\ verdict' = (IF Tr.end.stage = "connect" THEN Fail("connect-error", 0)
+        /\ verdict' = (IF Tr.end.stage = "connect"
+                       THEN (IF Tr.end.out = "circ" THEN "ok" ELSE Fail("connect-error", 0))
                        ELSE InitVerdict(Cfg, s, Tr.init))
         /\ s' = s
      ELSE IF i <= NEv THEN
